@@ -689,3 +689,380 @@ Example C07_example_depth3 :
       /\ consistentb c3_universe = true).
 Proof. exact (conj chain_example_depth3 (conj chain_example_depth3_nodata chain_example_depth3_eval)). Qed.
 Print Assumptions C07_example_depth3.
+
+(* ====================================================================== *)
+(* WARM CACHE: the chain theorem from any cache consistent with the universe *)
+(* ====================================================================== *)
+From RV Require Import Resolver.RecursiveWarm Resolver.RecursiveSequence.
+
+(* [cache_consistent u hints cache cache_get c] (Resolver/RecursiveWarm.v), for every record type t
+   proper (not ANY / AXFR / MAILB / MAILA):
+     sound     every record read from c at (n, t) has the owner, type and data of a record in the
+               cuts, the glue or the data (SOA included) of a zone of u;
+     closed    every host named by an NS record read from c has a well-formed name and an A record
+               in the hints or a non-empty A RRset in c (the fast candidate pass resolves it);
+     complete  a non-empty RRset read from c at (n, t), t <> NS, n not a nameserver host of u, holds
+               the data of EVERY record of (n, t) in the data of u's zones.
+   (a) A cache that answers nothing is consistent: the empty SimpleCache and the real cache model's
+   Cache::new at any instant. *)
+Theorem C07_empty_cache_consistent : forall u hints,
+  cache_consistent u hints scache sc_get sc_empty
+  /\ forall now, cache_consistent u hints rcache (rc_get now) rc_new.
+Proof. intros u hints. split; [exact (sc_empty_consistent u hints)|intro now; exact (rc_new_consistent now u hints)]. Qed.
+Print Assumptions C07_empty_cache_consistent.
+
+(* (b) + (c).  For EVERY universe [u] whose delegation points hold only NS records and whose NS
+   records name hosts ([universe_ns_ok]), every plain question [q] of it with its delegation chain
+   zroot > z1 > ... > zk = zk ([warm_question]: below), every SimpleCache [c] CONSISTENT with u -- in
+   particular one left by earlier resolutions -- root hints, candidate order, port as for
+   C07_correct_chain, fuel >= k + 2:  the recursive resolver (only-v4, fault-free universe oracle
+   through the wire codec, a fresh transport state) returns the authoritative answer and leaves a
+   consistent cache:
+     - either straight from the cache, without any exchange, cache unchanged: the RRset cached for
+       (name, type), non-empty, with EXACTLY the data of the authoritative RRset -- each record of
+       one has a record of the other with the same owner, type and data; the TTLs are the cache's (the
+       server's, at the fixed virtual instant) and so is the order; no SOA;
+     - or over the network: EXACTLY auth_answer (records as the owning zone lists them, or no records
+       and that zone's SOA), nothing having been cached for (name, type); the log is one UDP exchange
+       about q per zone of a non-empty SUFFIX [used] of the chain, in order, each with a server whose
+       closest zone for the name is that zone: candidate_nameservers started at the deepest zone of
+       the chain whose NS set is cached (at the root hints if none).
+
+   warm_question u hints q zroot [z1..zk] zk  (all decidable on the universe, the hints, the question):
+     the name is well formed; the type is a record type proper other than NS and CNAME;
+     zroot's apex is the root; hints_for (as for C07_correct_chain);
+     wchain: for each i, [wlink z(i-1) zi]: z(i-1) is a zone of u whose delegation point on the way to
+       the name is zi's apex, strictly deeper; the name owns nothing in z(i-1)'s glue or data (F11);
+       every nameserver host of the cut has an A record with TTL > 0 in z(i-1)'s glue or data; and
+       [ns_hosts_ok zi]: every host that ANY NS record of the universe owned by zi's apex names has a
+       well-formed name, and every A record the universe (any zone's cuts, glue or data) or the
+       hints hold for it is the address of a server whose closest zone for the name is zi;
+     answering_zone u zk q (as for C07_correct_chain);
+     the name owns no glue in any zone, its records in any zone's data are records of zk, and zk's
+       records of the asked name and type have TTL > 0;
+     the name is not a nameserver host (no NS record of the universe names it);
+     no CNAME record of the universe is owned by the name or a name above it;
+     every NS record of the universe owned by the name or a name above it is owned by the root or by
+       the apex of one of z1..zk. *)
+Theorem C07_correct_warm :
+  forall (sort_names : list dname -> list dname) (port : N) (u : universe) (hints : list rr) (hz : zone)
+         (q : question) (zroot : uzone) (rest : list uzone) (zk : uzone) (c : scache) (fuel : nat),
+  (forall l, Permutation (sort_names l) l) ->
+  universe_ns_ok u ->
+  zone_build root_domain None (hint_ops hints) = Ok hz ->
+  warm_question u hints q zroot rest zk -> plain_question u q ->
+  cache_consistent u hints scache sc_get c -> (length rest + 2 <= fuel)%nat ->
+  exists rrs c' ts',
+    resolve scache sc_get sc_insert_all sort_names (ModeRecursive OnlyV4) port (zones_insert [] hz)
+            (universe_oracle u []) fuel q (c, tstate_init)
+    = (Ok (NonAuthoritative rrs (aa_soa (auth_answer u q))), (c', ts'))
+    /\ cache_consistent u hints scache sc_get c'
+    /\ ((ts_log ts' = [] /\ c' = c /\ rrs = sc_get c (q_name q) (q_type q) /\ rrs <> []
+         /\ same_data rrs (aa_rrs (auth_answer u q)))
+        \/ (rrs = aa_rrs (auth_answer u q) /\ sc_get c (q_name q) (q_type q) = []
+            /\ exists pre used, zroot :: rest = pre ++ used /\ used <> []
+               /\ Forall2 (fun z e => exists a, query_to port q a e /\ serves_owner u (inl a) z q) used (ts_log ts'))).
+Proof.
+  intros sort_names port u hints hz q zroot rest zk c fuel Hs Hu Hb Hw Hq Hc Hf.
+  exact (warm_correct sort_names Hs port u hints hz q zroot rest zk c fuel Hu Hb Hw Hq Hc Hf).
+Qed.
+Print Assumptions C07_correct_warm.
+
+(* the same for the real cache model (Cache/CacheModel.v under its invariant) at any fixed instant *)
+Theorem C07_correct_warm_real_cache :
+  forall (now : N) (sort_names : list dname -> list dname) (port : N) (u : universe) (hints : list rr) (hz : zone)
+         (q : question) (zroot : uzone) (rest : list uzone) (zk : uzone) (c : rcache) (fuel : nat),
+  (forall l, Permutation (sort_names l) l) ->
+  universe_ns_ok u ->
+  zone_build root_domain None (hint_ops hints) = Ok hz ->
+  warm_question u hints q zroot rest zk -> plain_question u q ->
+  cache_consistent u hints rcache (rc_get now) c -> (length rest + 2 <= fuel)%nat ->
+  exists rrs c' ts',
+    resolve rcache (rc_get now) (rc_insert_all now) sort_names (ModeRecursive OnlyV4) port (zones_insert [] hz)
+            (universe_oracle u []) fuel q (c, tstate_init)
+    = (Ok (NonAuthoritative rrs (aa_soa (auth_answer u q))), (c', ts'))
+    /\ cache_consistent u hints rcache (rc_get now) c'
+    /\ ((ts_log ts' = [] /\ c' = c /\ rrs = rc_get now c (q_name q) (q_type q) /\ rrs <> []
+         /\ same_data rrs (aa_rrs (auth_answer u q)))
+        \/ (rrs = aa_rrs (auth_answer u q) /\ rc_get now c (q_name q) (q_type q) = []
+            /\ exists pre used, zroot :: rest = pre ++ used /\ used <> []
+               /\ Forall2 (fun z e => exists a, query_to port q a e /\ serves_owner u (inl a) z q) used (ts_log ts'))).
+Proof.
+  intros now sort_names port u hints hz q zroot rest zk c fuel Hs Hu Hb Hw Hq Hc Hf.
+  exact (warm_correct_real_cache now sort_names Hs port u hints hz q zroot rest zk c fuel Hu Hb Hw Hq Hc Hf).
+Qed.
+Print Assumptions C07_correct_warm_real_cache.
+
+(* the four laws of the abstract cache the warm induction uses, about ONE insert_all into ANY cache,
+   at record types proper: what is read at (n, t) is owned by n, of type t, class IN; what is read
+   after an insert_all was read before or was given to it with a positive TTL (same owner, type,
+   data); what was read before can be read after (same data); what is given with a positive TTL can
+   be read.  SimpleCache meets them, and so does the real cache model at any fixed instant. *)
+Theorem C07_warm_cache_laws :
+  cache_laws scache sc_get sc_insert_all /\ forall now, cache_laws rcache (rc_get now) (rc_insert_all now).
+Proof. split; [exact sc_cache_laws|exact rc_cache_laws]. Qed.
+Print Assumptions C07_warm_cache_laws.
+
+(* ---- the hypotheses are met by a worked universe (RecursiveWarm.v, section 8): the depth-3 chain
+   . -> com. -> example.com. -> sub.example.com. of C07_example_depth3 with two cross-zone aliases
+   added (alias.example.com. CNAME www.sub.example.com.; ext.com. CNAME alias.example.com.), a
+   consistent universe.  [c4_cache1] is the SimpleCache left by resolving www.sub.example.com. A from
+   the empty cache: it is consistent; from it MX is denied after ONE exchange (with 10.0.0.4, the
+   server of sub.example.com., whose NS set and glue are cached) and A is answered from the cache
+   with no exchange (last conjunct: the same runs evaluated by vm_compute) *)
+Example C07_example_warm :
+  (cache_consistent c4_universe c3_hints scache sc_get c4_cache1
+   /\ warm_outcome scache sc_get 53 c4_universe c3_hints c3_q_mx c4_root [c4_com; c4_ex; c4_sub] c4_cache1
+        (resolve scache sc_get sc_insert_all sort_names_ord (ModeRecursive OnlyV4) 53 (zones_insert [] c3_hz)
+                 (universe_oracle c4_universe []) 5%nat c3_q_mx (c4_cache1, tstate_init))
+   /\ warm_outcome scache sc_get 53 c4_universe c3_hints c3_q c4_root [c4_com; c4_ex; c4_sub] c4_cache1
+        (resolve scache sc_get sc_insert_all sort_names_ord (ModeRecursive OnlyV4) 53 (zones_insert [] c3_hz)
+                 (universe_oracle c4_universe []) 5%nat c3_q (c4_cache1, tstate_init)))
+  /\ (let r2 := resolve scache sc_get sc_insert_all sort_names_ord (ModeRecursive OnlyV4) 53 (zones_insert [] c3_hz)
+                        (universe_oracle c4_universe []) 5%nat c3_q_mx (c4_cache1, tstate_init) in
+      let r3 := resolve scache sc_get sc_insert_all sort_names_ord (ModeRecursive OnlyV4) 53 (zones_insert [] c3_hz)
+                        (universe_oracle c4_universe []) 5%nat c3_q (c4_cache1, tstate_init) in
+      fst r2 = Ok (NonAuthoritative [] (Some (uz_soa c4_sub)))
+      /\ map x_addr (ts_log (snd (snd r2))) = [(inl c3_ip3, 53)]
+      /\ fst r3 = Ok (NonAuthoritative [c3_rr c3_n_www RT_A 300 (RD_A 3221225985)] None)
+      /\ ts_log (snd (snd r3)) = []
+      /\ consistentb c4_universe = true).
+Proof. exact (conj warm_example_depth3 warm_example_depth3_eval). Qed.
+Print Assumptions C07_example_warm.
+
+(* ====================================================================== *)
+(* SEQUENCES of questions sharing one cache                                 *)
+(* ====================================================================== *)
+
+(* [resolve_seq] (Resolver/RecursiveSequence.v): the questions of a list resolved one after the other,
+   each with a fresh transport state, the cache handed on.  For EVERY universe as above, every list
+   [qs] of plain questions of it (each with its own chain, of length + 2 <= fuel: [seq_question] =
+   warm_question + plain_question), every cache consistent with the universe at the start -- the
+   empty cache is -- EVERY question of the sequence returns its authoritative answer
+   ([answer_is_auth]: Ok (NonAuthoritative rrs soa) with soa = auth_answer's SOA exactly and rrs
+   holding exactly the data of auth_answer's records -- identical to them when resolved over the
+   network, the cached RRset when an earlier question has cached it), and the cache at the end is
+   consistent.  Stated for SimpleCache started empty and for the real cache model started from
+   Cache::new at any fixed instant. *)
+Theorem C07_sequence :
+  forall (sort_names : list dname -> list dname) (port : N) (u : universe) (hints : list rr) (hz : zone)
+         (fuel : nat) (qs : list question),
+  (forall l, Permutation (sort_names l) l) ->
+  universe_ns_ok u ->
+  zone_build root_domain None (hint_ops hints) = Ok hz ->
+  Forall (fun q => exists zroot rest zk,
+            warm_question u hints q zroot rest zk /\ plain_question u q /\ (length rest + 2 <= fuel)%nat) qs ->
+  (Forall2 (fun q out => exists rrs, fst out = Ok (NonAuthoritative rrs (aa_soa (auth_answer u q)))
+                                     /\ same_data rrs (aa_rrs (auth_answer u q)))
+           qs (fst (resolve_seq scache sc_get sc_insert_all sort_names port (zones_insert [] hz) (universe_oracle u []) fuel qs sc_empty))
+   /\ cache_consistent u hints scache sc_get
+        (snd (resolve_seq scache sc_get sc_insert_all sort_names port (zones_insert [] hz) (universe_oracle u []) fuel qs sc_empty)))
+  /\ forall now,
+     (Forall2 (fun q out => exists rrs, fst out = Ok (NonAuthoritative rrs (aa_soa (auth_answer u q)))
+                                        /\ same_data rrs (aa_rrs (auth_answer u q)))
+              qs (fst (resolve_seq rcache (rc_get now) (rc_insert_all now) sort_names port (zones_insert [] hz) (universe_oracle u []) fuel qs rc_new))
+      /\ cache_consistent u hints rcache (rc_get now)
+           (snd (resolve_seq rcache (rc_get now) (rc_insert_all now) sort_names port (zones_insert [] hz) (universe_oracle u []) fuel qs rc_new))).
+Proof.
+  intros sort_names port u hints hz fuel qs Hs Hu Hb Hqs. split.
+  - exact (sequence_correct scache sc_get sc_insert_all sc_cache_laws sort_names Hs port u Hu hints hz Hb fuel qs sc_empty
+             Hqs (sc_empty_consistent u hints)).
+  - intro now.
+    exact (sequence_correct rcache (rc_get now) (rc_insert_all now) (rc_cache_laws now) sort_names Hs port u Hu hints hz Hb fuel qs rc_new
+             Hqs (rc_new_consistent now u hints)).
+Qed.
+Print Assumptions C07_sequence.
+
+(* the same from ANY consistent cache, with each question's outcome relative to the cache it starts
+   in (warm_outcome: from the cache, or over the network from the deepest cached zone of its chain) *)
+Theorem C07_sequence_outcomes :
+  forall (sort_names : list dname -> list dname) (port : N) (u : universe) (hints : list rr) (hz : zone)
+         (fuel : nat) (qs : list question) (c : scache),
+  (forall l, Permutation (sort_names l) l) ->
+  universe_ns_ok u ->
+  zone_build root_domain None (hint_ops hints) = Ok hz ->
+  Forall (seq_question u hints fuel) qs -> cache_consistent u hints scache sc_get c ->
+  seq_outcomes scache sc_get sc_insert_all sort_names port u hints hz fuel qs c
+  /\ cache_consistent u hints scache sc_get
+       (snd (resolve_seq scache sc_get sc_insert_all sort_names port (zones_insert [] hz) (universe_oracle u []) fuel qs c)).
+Proof.
+  intros sort_names port u hints hz fuel qs c Hs Hu Hb Hqs Hc.
+  exact (sequence_outcomes scache sc_get sc_insert_all sc_cache_laws sort_names Hs port u Hu hints hz Hb fuel qs c Hqs Hc).
+Qed.
+Print Assumptions C07_sequence_outcomes.
+
+(* ---- satisfiable: on the worked universe the sequence www.sub.example.com. A, MX, A from the empty
+   SimpleCache; evaluated by vm_compute the three logs are 10.0.0.1..4, then 10.0.0.4 alone, then
+   nothing ---- *)
+Example C07_example_sequence :
+  (Forall2 (fun q out => answer_is_auth c4_universe q (fst out)) c4_seq
+           (fst (resolve_seq scache sc_get sc_insert_all sort_names_ord 53 (zones_insert [] c3_hz)
+                             (universe_oracle c4_universe []) 5%nat c4_seq sc_empty))
+   /\ cache_consistent c4_universe c3_hints scache sc_get
+        (snd (resolve_seq scache sc_get sc_insert_all sort_names_ord 53 (zones_insert [] c3_hz)
+                          (universe_oracle c4_universe []) 5%nat c4_seq sc_empty)))
+  /\ (map fst (fst (resolve_seq scache sc_get sc_insert_all sort_names_ord 53 (zones_insert [] c3_hz)
+                                (universe_oracle c4_universe []) 5%nat c4_seq sc_empty))
+      = [Ok (NonAuthoritative [c3_rr c3_n_www RT_A 300 (RD_A 3221225985)] None);
+         Ok (NonAuthoritative [] (Some (uz_soa c4_sub)));
+         Ok (NonAuthoritative [c3_rr c3_n_www RT_A 300 (RD_A 3221225985)] None)]
+      /\ map (fun out => map x_addr (snd out))
+             (fst (resolve_seq scache sc_get sc_insert_all sort_names_ord 53 (zones_insert [] c3_hz)
+                               (universe_oracle c4_universe []) 5%nat c4_seq sc_empty))
+         = [[(inl c3_ip0, 53); (inl c3_ip1, 53); (inl c3_ip2, 53); (inl c3_ip3, 53)]; [(inl c3_ip3, 53)]; []]).
+Proof. exact (conj sequence_example sequence_example_eval). Qed.
+Print Assumptions C07_example_sequence.
+
+(* ====================================================================== *)
+(* ALIASES: CNAME chains crossing zones                                     *)
+(* ====================================================================== *)
+From RV Require Import Resolver.RecursiveAlias.
+
+(* For EVERY universe [u] as above, every question (n, t, cl) -- t a record type proper other than
+   NS and CNAME -- whose authoritative answer is a chain of k >= 0 aliases
+       n = n0 -CNAME-> n1 -CNAME-> ... -CNAME-> nk = f
+   followed by the final RRset at f or NODATA / NXDOMAIN there ([alias_path u hints t cl fuel0 n cs f],
+   cs = the k CNAME records in order; k = 0 is the plain question of C07_correct_warm), every cache
+   consistent with u (the empty one, or one left by earlier questions), fuel >= fuel0:
+
+     auth_answer u (n, t)  =  cs ++ (records of auth_answer u (f, t)),  with the SOA of auth_answer u (f, t);
+     resolve returns  Ok (NonAuthoritative (xs ++ fr) that SOA)  where xs are the chain's records IN
+     ORDER -- each with the owner, type and data of the corresponding record of cs (its TTL is the
+     server's, or the cache's when the link was cached) -- and fr has exactly the data of the final
+     RRset (identical to it when it came over the network; none for NODATA / NXDOMAIN);
+     the cache at the end is consistent again.
+
+   The resolver gets there by: the alias followed inside resolve_local as far as the cache holds the
+   chain; otherwise the walk down the delegation chain of the name to a server of the zone owning it,
+   whose reply holds the chain as far as that server's zones go (Universe.serve; several links when
+   consecutive names lie in its zones) and the final RRset if it has it -- the reply filter keeps
+   exactly those (RecursiveAlias.validate_alias) -- then, when the reply ended inside the chain
+   (NRCname), resolve_combined_recursive: the nested resolve_recursive_notimeout on the next name
+   with the alias question on the stack, on the cache warmed so far (induction on the chain with the
+   warm-cache theorem generalised to a non-empty question stack).
+
+   alias_path u hints t cl fuel0 n cs f  (decidable on the universe, the hints and the question):
+     for the final name f:  warm_question and plain_question of (f, t, cl)  (as for C07_correct_warm);
+     for each alias name ni with its record ci -> n(i+1):
+       walk_question (ni, t, cl) zroot rest zk: the name's own delegation chain zroot > .. > zk with
+         the hypotheses of C07_correct_warm that concern the walk (glue-complete links, nameserver
+         hosts leading to the right servers, no alias strictly above the name, NS owners on the way
+         are the chain's apexes, the name is not a nameserver host);
+       alias_at ni zk ci n(i+1): zk owns ni (longest apex, no cut on the way) and holds ci there; ci is
+         the ONLY record of the universe (cuts, glue, data of any zone) owned by ni; TTL > 0; known class;
+       plain_question (ni, t, cl): well formed; request and the servers' replies fit 512 octets;
+     fuel0 = the sum over the names of (length of its delegation chain + 2).
+   Further hypotheses: the names n0..nk are pairwise distinct (no cycle); k + 1 < 32 (RECURSION_LIMIT);
+   [servers_ok]: every server of the universe that has a zone enclosing a name of the chain with no
+   delegation point of that zone on the way has, as that zone, the zone of the universe that owns the
+   name (true of every tree of zones whose servers hold whole zones). *)
+Theorem C07_correct_alias :
+  forall (sort_names : list dname -> list dname) (port : N) (u : universe) (hints : list rr) (hz : zone)
+         (t cl : N) (fuel0 : nat) (n : dname) (cs : list rr) (f : dname) (c : scache) (fuel : nat),
+  (forall l, Permutation (sort_names l) l) ->
+  universe_ns_ok u ->
+  zone_build root_domain None (hint_ops hints) = Ok hz ->
+  concrete t -> t <> RT_CNAME -> t <> RT_NS ->
+  alias_path u hints t cl fuel0 n cs f -> NoDup (n :: ctargets cs) -> servers_ok u (n :: ctargets cs) ->
+  (length cs + 1 < 32)%nat ->
+  cache_consistent u hints scache sc_get c -> (fuel0 <= fuel)%nat ->
+  aa_rrs (auth_answer u (mkq n t cl)) = cs ++ aa_rrs (auth_answer u (mkq f t cl))
+  /\ aa_soa (auth_answer u (mkq n t cl)) = aa_soa (auth_answer u (mkq f t cl))
+  /\ exists xs fr c' ts',
+       resolve scache sc_get sc_insert_all sort_names (ModeRecursive OnlyV4) port (zones_insert [] hz)
+               (universe_oracle u []) fuel (mkq n t cl) (c, tstate_init)
+       = (Ok (NonAuthoritative (xs ++ fr) (aa_soa (auth_answer u (mkq n t cl)))), (c', ts'))
+       /\ Forall2 (fun x r => rr_name x = rr_name r /\ rr_type x = rr_type r /\ rr_data x = rr_data r) xs cs
+       /\ same_data fr (aa_rrs (auth_answer u (mkq f t cl)))
+       /\ cache_consistent u hints scache sc_get c'.
+Proof.
+  intros sort_names port u hints hz t cl fuel0 n cs f c fuel Hs Hu Hb Hc Hcn Hns Hp Hnd Hsrv Hlen HC Hf.
+  exact (alias_correct sort_names Hs port u hints hz t cl fuel0 n cs f c fuel Hu Hb Hc Hcn Hns Hp Hnd Hsrv Hlen HC Hf).
+Qed.
+Print Assumptions C07_correct_alias.
+
+(* the same for the real cache model at any fixed instant *)
+Theorem C07_correct_alias_real_cache :
+  forall (now : N) (sort_names : list dname -> list dname) (port : N) (u : universe) (hints : list rr) (hz : zone)
+         (t cl : N) (fuel0 : nat) (n : dname) (cs : list rr) (f : dname) (c : rcache) (fuel : nat),
+  (forall l, Permutation (sort_names l) l) ->
+  universe_ns_ok u ->
+  zone_build root_domain None (hint_ops hints) = Ok hz ->
+  concrete t -> t <> RT_CNAME -> t <> RT_NS ->
+  alias_path u hints t cl fuel0 n cs f -> NoDup (n :: ctargets cs) -> servers_ok u (n :: ctargets cs) ->
+  (length cs + 1 < 32)%nat ->
+  cache_consistent u hints rcache (rc_get now) c -> (fuel0 <= fuel)%nat ->
+  alias_outcome rcache (rc_get now) u hints t cl n cs f c
+    (resolve rcache (rc_get now) (rc_insert_all now) sort_names (ModeRecursive OnlyV4) port (zones_insert [] hz)
+             (universe_oracle u []) fuel (mkq n t cl) (c, tstate_init)).
+Proof.
+  intros now sort_names port u hints hz t cl fuel0 n cs f c fuel Hs Hu Hb.
+  exact (alias_correct_abstract rcache (rc_get now) (rc_insert_all now) (rc_cache_laws now) sort_names Hs port u Hu hints hz Hb
+           t cl fuel0 n cs f c fuel).
+Qed.
+Print Assumptions C07_correct_alias_real_cache.
+
+(* the reply filter on an alias answer, for EVERY question and reply: a non-empty run of CNAME records
+   from the question name (known classes, pairwise distinct names) followed by records of the asked
+   type owned by the chain's end (or by nothing) is kept exactly, in order: NRAnswer (chain ++ finals)
+   when there are final records, NRCname chain end otherwise *)
+Theorem C07_filter_accepts_alias_answer :
+  forall q cs fin f aa rcode au ad mc,
+  concrete (q_type q) -> q_type q <> RT_CNAME -> cs <> [] ->
+  cchain (q_name q) cs f -> NoDup (q_name q :: ctargets cs) ->
+  Forall (fun r => rr_is_unknown r = false) (cs ++ fin) ->
+  Forall (fun r => rr_name r = f /\ rr_type r = q_type q) fin ->
+  validate_nameserver_response q (msg q aa rcode (cs ++ fin) au ad) mc
+  = Ok (Some (if is_nil fin then NRCname cs f else NRAnswer (cs ++ fin) None)).
+Proof.
+  intros q cs fin f aa rcode au ad mc H1 H2 H3 H4 H5 H6 H7.
+  exact (validate_alias q H1 H2 cs fin f H3 H4 H5 H6 H7 aa rcode au ad mc).
+Qed.
+Print Assumptions C07_filter_accepts_alias_answer.
+
+(* sequences mixing alias and plain questions on one cache started empty: every question returns
+   its authoritative answer (chain part in order, then exactly the data of the final RRset; the SOA
+   exactly), and the cache at the end is consistent *)
+Theorem C07_alias_sequence :
+  forall (sort_names : list dname -> list dname) (port : N) (u : universe) (hints : list rr) (hz : zone)
+         (fuel : nat) (qs : list question),
+  (forall l, Permutation (sort_names l) l) ->
+  universe_ns_ok u ->
+  zone_build root_domain None (hint_ops hints) = Ok hz ->
+  Forall (alias_question u hints fuel) qs ->
+  Forall2 (fun q out => answer_is_auth_chain u q (fst out)) qs
+          (fst (resolve_seq scache sc_get sc_insert_all sort_names port (zones_insert [] hz) (universe_oracle u []) fuel qs sc_empty))
+  /\ cache_consistent u hints scache sc_get
+       (snd (resolve_seq scache sc_get sc_insert_all sort_names port (zones_insert [] hz) (universe_oracle u []) fuel qs sc_empty)).
+Proof.
+  intros sort_names port u hints hz fuel qs Hs Hu Hb Hqs.
+  exact (alias_sequence_correct scache sc_get sc_insert_all sc_cache_laws sort_names Hs port u Hu hints hz Hb fuel qs sc_empty
+           Hqs (sc_empty_consistent u hints)).
+Qed.
+Print Assumptions C07_alias_sequence.
+
+(* ---- the hypotheses are met by the worked universe: ext.com. A, whose answer is
+   ext.com. CNAME alias.example.com. (held by com.), alias.example.com. CNAME www.sub.example.com. (held
+   by example.com.), www.sub.example.com. A (held by sub.example.com.): from the empty cache and from
+   the cache left by www.sub.example.com. A; evaluated by vm_compute from the empty cache: the three
+   records in that order after six exchanges (10.0.0.1, .2 for ext.com.; .2, .3 for
+   alias.example.com.; .3, .4 for www.sub.example.com.), equal to auth_answer; asked again, the same
+   answer from the cache with no exchange ---- *)
+Example C07_example_alias :
+  (alias_outcome scache sc_get c4_universe c3_hints RT_A RC_IN c4_n_ext [c4_cn_ext; c4_cn_alias] c3_n_www sc_empty
+     (resolve scache sc_get sc_insert_all sort_names_ord (ModeRecursive OnlyV4) 53 (zones_insert [] c3_hz)
+              (universe_oracle c4_universe []) 12%nat c4_q_ext (sc_empty, tstate_init))
+   /\ alias_outcome scache sc_get c4_universe c3_hints RT_A RC_IN c4_n_ext [c4_cn_ext; c4_cn_alias] c3_n_www c4_cache1
+        (resolve scache sc_get sc_insert_all sort_names_ord (ModeRecursive OnlyV4) 53 (zones_insert [] c3_hz)
+                 (universe_oracle c4_universe []) 12%nat c4_q_ext (c4_cache1, tstate_init)))
+  /\ (let r := resolve scache sc_get sc_insert_all sort_names_ord (ModeRecursive OnlyV4) 53 (zones_insert [] c3_hz)
+                       (universe_oracle c4_universe []) 12%nat c4_q_ext (sc_empty, tstate_init) in
+      let r' := resolve scache sc_get sc_insert_all sort_names_ord (ModeRecursive OnlyV4) 53 (zones_insert [] c3_hz)
+                        (universe_oracle c4_universe []) 12%nat c4_q_ext (fst (snd r), tstate_init) in
+      fst r = Ok (NonAuthoritative [c4_cn_ext; c4_cn_alias; c3_rr c3_n_www RT_A 300 (RD_A 3221225985)] None)
+      /\ map x_addr (ts_log (snd (snd r)))
+         = [(inl c3_ip0, 53); (inl c3_ip1, 53); (inl c3_ip1, 53); (inl c3_ip2, 53); (inl c3_ip2, 53); (inl c3_ip3, 53)]
+      /\ aa_rrs (auth_answer c4_universe c4_q_ext) = [c4_cn_ext; c4_cn_alias; c3_rr c3_n_www RT_A 300 (RD_A 3221225985)]
+      /\ fst r' = fst r /\ ts_log (snd (snd r')) = []).
+Proof. exact (conj alias_example alias_example_eval). Qed.
+Print Assumptions C07_example_alias.
